@@ -190,6 +190,8 @@ def _judge(args):
     flavours = [{"src": "cls", "call": "asyncdef"}]
     if "C04" in want:
         flavours.append({"src": "agen", "call": "asyncdef"})
+        flavours.append({"src": "clsgetattr", "call": "asyncdef"})     # aclose reachable through __getattr__ only
+        flavours.append({"src": "clslazy", "call": "asyncdef"})
         nsrc_ = len(cfg["data"])
         if nsrc_ >= 2 and tool != "iter":
             # an iterator that cannot be closed among closable ones must not stop the cleanup
@@ -324,6 +326,8 @@ def _judge(args):
                           ("unstarted-source" if all(o.states.get(i) == "new" for i in bad) else "source")
                     if never_advanced_handle:
                         how = "close-of-never-advanced-handle"
+                    if fl["src"] == "clsgetattr":
+                        how += "+aclose-only-through-getattr"
                     viol("C04", f"unreleased-{who}-after-{how}", {"projection": "lifecycle", "expected": "closed|exhausted",
                                                                    "observed": o.states, "flavour": fl["src"], "fault_kind": fk,
                                                                    "observed_log": obs_log})
